@@ -85,6 +85,8 @@ class KeysView(MappingView):
             yield key
 
     def __getitem__(self, index):
+        if isinstance(index, slice):
+            return [key for key, _ in self._mapping[index]]
         return self._mapping[index][0]
 
     def __repr__(self):
@@ -125,6 +127,8 @@ class ValuesView(MappingView):
             yield value
 
     def __getitem__(self, index):
+        if isinstance(index, slice):
+            return [value for _, value in self._mapping[index]]
         return self._mapping[index][1]
 
     def __repr__(self):
@@ -271,6 +275,9 @@ class OrderedMultiDict(dict, MutableMappingSequence):
             raise TypeError(f"expected at most 1 arguments, got {len(args)}")
 
         iterable = args[0] if args else None
+        if iterable is self:
+            # Like list.extend(): only what is there now is added again.
+            iterable = list(self.__items)
         if iterable:
             if isinstance(iterable, abc.Mapping) or hasattr(iterable, "items"):
                 for key, value in iterable.items():
